@@ -39,9 +39,18 @@ def to_model(a):
     return [a["rs"], a["rv"], a["rt"], a["layered"], a["bs"], a["bv"], a["bt"], a["variants"], a["date"], a["ct"], a["respin"]]
 
 
-def _build(a):
+_REUSED = []
+
+
+def _build(a, reuse=False):
     import productmd.composeinfo as CI
-    ci = CI.ComposeInfo()
+    if reuse:
+        if not _REUSED:
+            _REUSED.append(CI.ComposeInfo())
+        ci = _REUSED[0]
+        ci.variants.variants.clear()
+    else:
+        ci = CI.ComposeInfo()
     ci.release.short, ci.release.version, ci.release.type = a["rs"], a["rv"], a["rt"]
     ci.release.is_layered = a["layered"]
     ci.base_product.short, ci.base_product.version, ci.base_product.type = a["bs"], a["bv"], a["bt"]
@@ -62,12 +71,27 @@ def _valid_id(cid):
         return False
 
 
+_PREV = [None]
+
+
 def impl_create(a):
+    """on a fresh object and on one long-lived object whose fields are re-assigned: the id is a function of the fields"""
     try:
         cid = _build(a).create_compose_id()
     except EXC as e:
-        return exc_result(e)
-    return ["ok", [cid, _valid_id(cid)]]
+        fresh = exc_result(e)
+    else:
+        fresh = ["ok", [cid, _valid_id(cid)]]
+    try:
+        cid2 = _build(a, reuse=True).create_compose_id()
+    except EXC as e:
+        reused = exc_result(e)
+    else:
+        reused = ["ok", [cid2, _valid_id(cid2)]]
+    prev, _PREV[0] = _PREV[0], a
+    if reused[:2] != fresh[:2]:
+        return ["err", "HistoryDependent", "fresh object: %r; object previously set to %r: %r" % (fresh, prev, reused)]
+    return fresh
 
 
 def _decode(cid):
